@@ -63,7 +63,7 @@ func ruleMapIterCond(c *Ctx, r *R) {
 				return
 			}
 			cal := call.Call.StaticCallee()
-			if cal == nil || cal.Name() != "Wait" || cal.Signature.Recv() == nil || !isNamedType(cal.Signature.Recv().Type(), "sync", "Cond") {
+			if cal == nil || fname(cal) != "Wait" || cal.Signature.Recv() == nil || !isNamedType(cal.Signature.Recv().Type(), "sync", "Cond") {
 				return
 			}
 			nWait++
@@ -123,7 +123,7 @@ func ruleMapIterCond(c *Ctx, r *R) {
 			continue
 		}
 		cal := call.Call.StaticCallee()
-		if cal == nil || (cal.Name() != "Signal" && cal.Name() != "Broadcast") || cal.Signature.Recv() == nil || !isNamedType(cal.Signature.Recv().Type(), "sync", "Cond") {
+		if cal == nil || (fname(cal) != "Signal" && fname(cal) != "Broadcast") || cal.Signature.Recv() == nil || !isNamedType(cal.Signature.Recv().Type(), "sync", "Cond") {
 			continue
 		}
 		nSig++
@@ -334,7 +334,7 @@ func ruleMapOrder(c *Ctx, r *R) {
 					return
 				}
 				cal := staticCallee(&call.Call)
-				if cal == nil || cal.Name() != "New" || cal.Pkg == nil || !strings.HasSuffix(cal.Pkg.Pkg.Path(), "container/xheap") {
+				if cal == nil || fname(cal) != "New" || cal.Pkg == nil || !strings.HasSuffix(cal.Pkg.Pkg.Path(), "container/xheap") {
 					return
 				}
 				// this call must be reachable from the constructor: in it, or in a function it calls
@@ -430,7 +430,7 @@ func ruleMapOrder(c *Ctx, r *R) {
 				continue
 			}
 			cal := staticCallee(&call.Call)
-			if cal == nil || cal.Name() != "Pop" || cal.Signature.Recv() == nil || !(isNamedTypeDeep(cal.Signature.Recv().Type(), "internal/heap", "Heap") || isNamedTypeDeep(cal.Signature.Recv().Type(), "container/xheap", "Heap")) {
+			if cal == nil || fname(cal) != "Pop" || cal.Signature.Recv() == nil || !(isNamedTypeDeep(cal.Signature.Recv().Type(), "internal/heap", "Heap") || isNamedTypeDeep(cal.Signature.Recv().Type(), "container/xheap", "Heap")) {
 				continue
 			}
 			nPop++
@@ -479,7 +479,7 @@ func ruleMapOrder(c *Ctx, r *R) {
 		okPush := false
 		instrs(fn, func(b *ssa.BasicBlock, i int, in ssa.Instruction) {
 			if call, ok := in.(*ssa.Call); ok {
-				if cal := staticCallee(&call.Call); cal != nil && cal.Name() == "Push" && len(call.Call.Args) == 2 {
+				if cal := staticCallee(&call.Call); cal != nil && fname(cal) == "Push" && len(call.Call.Args) == 2 {
 					if ex, ok := call.Call.Args[1].(*ssa.Extract); ok {
 						switch t := ex.Tuple.(type) {
 						case *ssa.UnOp:
@@ -523,7 +523,7 @@ func ruleMapCloseOut(c *Ctx, r *R) {
 						case *ssa.Go:
 							spawn = true
 						case *ssa.Call:
-							if cal := y.Call.StaticCallee(); cal != nil && cal.Name() == "Go" {
+							if cal := y.Call.StaticCallee(); cal != nil && fname(cal) == "Go" {
 								spawn = true
 							}
 						}
@@ -632,7 +632,7 @@ func ruleMapStreamError(c *Ctx, r *R) {
 	var waitAt deepInstr
 	for _, dd := range deepInstrs(fn, 2) {
 		if call, ok := dd.in.(*ssa.Call); ok {
-			if cal := call.Call.StaticCallee(); cal != nil && cal.Name() == "Wait" && cal.Pkg != nil && strings.HasSuffix(cal.Pkg.Pkg.Path(), "errgroup") {
+			if cal := call.Call.StaticCallee(); cal != nil && fname(cal) == "Wait" && cal.Pkg != nil && strings.HasSuffix(cal.Pkg.Pkg.Path(), "errgroup") {
 				wait = call
 				waitAt = dd
 			}
